@@ -145,7 +145,11 @@ public:
             {
               context->_pool = this;
               if (!context->_thread.start(*context, &ThreadContext::proc))
+              { // no thread: give the slot back, or the pool counts a worker that does not exist (and never starts another one for it)
+                Mutex::Guard guard(_mutex);
                 context->_terminated = true;
+                --_threadCount;
+              }
             }
           }
         }
